@@ -241,7 +241,16 @@ fn check_stream(flags: &str, lines: &[String], via_cli: bool, count: bool) -> Re
 fn check_stream_d(flags: &str, lines: &[String], via_cli: bool, count: bool, d: i64) -> Result<u64, String> {
     let g = groups_of(flags);
     let (sh, ss) = render::spec_header(&g);
-    let o = Opts { i: vec![if flags.is_empty() { "x".to_string() } else { flags.to_string() }], upd: -1, c: count, d, ..Opts::default() };
+    // through the command line the letters are given as two -i options whenever there are at least two of them
+    let fl = if flags.is_empty() { "x".to_string() } else { flags.to_string() };
+    let chars: Vec<char> = fl.chars().collect();
+    let i = if via_cli && chars.len() >= 2 {
+        let k = 1 + lines.len() % (chars.len() - 1);
+        vec![chars[..k].iter().collect::<String>(), chars[k..].iter().collect::<String>()]
+    } else {
+        vec![fl]
+    };
+    let o = Opts { i, upd: -1, c: count, d, ..Opts::default() };
     let out = if via_cli {
         let p = run::tmp_dir().join(format!("c14-{}.txt", std::process::id()));
         std::fs::write(&p, lines.join("\n") + "\n").map_err(|e| e.to_string())?;
@@ -354,7 +363,7 @@ fn run(c: &mut Ctx) {
     }
     // (b) refresh structure
     let cases = c.tier.pick(1_500, 40_000);
-    let strat = (flags_strategy(), proptest::collection::vec((0usize..4).prop_flat_map(|a| alphabet::frame_any(gen::POOL[a])), 1..25), prop::bool::weighted(0.05), any::<bool>());
+    let strat = (flags_strategy(), proptest::collection::vec((0usize..4).prop_flat_map(|a| alphabet::frame_any(gen::POOL[a])), 1..25), prop::bool::weighted(0.08), any::<bool>());
     let r = c.proptest(cases, strat, |c, (flags, frames, via_cli, count), counting| {
         let lines: Vec<String> = frames.iter().map(|f| f.hex()).collect();
         let d = if lines.len() % 4 == 3 { 0 } else { 1_000_000 };
